@@ -720,3 +720,127 @@ func varargDerives(v ssa.Value, pred func(ssa.Value) bool) bool {
 	}
 	return false
 }
+
+func init() {
+	register("SNAP-5", "a constant's snapshot distinguishes the kind of its value (int vs uint vs float vs string vs bool)", 1, ruleSNAP5)
+}
+
+// SNAP-5: `2` and `2.0` (or "true" and true) must not share a snapshot: the kind of the value is part of the key.
+// Accepted: an operand rendered from reflect.Kind.String() of the value's own Kind(); or a module helper mapping the
+// kind through a switch whose integer, unsigned, float, string and bool classes get pairwise distinct texts.
+func ruleSNAP5(c *Ctx) {
+	p := c.P
+	fn := p.Method("ast", "Constant", "GetSnapshot")
+	if fn == nil {
+		c.AnchorLost("(*ast.Constant).GetSnapshot")
+		return
+	}
+	valF := p.Field("ast", "Constant", "Value")
+	isKindOfValue := func(v ssa.Value) bool {
+		call, ok := v.(*ssa.Call)
+		if !ok || !calleeNameIs(call, "Kind") || len(call.Call.Args) != 1 {
+			return false
+		}
+		f, base := fieldLoad(call.Call.Args[0])
+		return f == valF && base == ssa.Value(receiver(fn))
+	}
+	construct := "Constant.GetSnapshot / kind of the value is part of the snapshot"
+	ok, why := false, "no rendering of the value's kind found"
+	for _, ci := range callsIn(fn) {
+		call, isCall := ci.(*ssa.Call)
+		if !isCall {
+			continue
+		}
+		callee := call.Call.StaticCallee()
+		if callee == nil {
+			continue
+		}
+		// direct: Value.Kind().String() written out
+		if callee.String() == "(reflect.Kind).String" && len(call.Call.Args) == 1 && isKindOfValue(call.Call.Args[0]) {
+			if valueWritten(fn, call) {
+				ok = true
+			}
+			continue
+		}
+		// helper(kind) string
+		if fnInModule(callee) && len(call.Call.Args) >= 1 {
+			usesKind := false
+			for _, a := range call.Call.Args {
+				if isKindOfValue(a) {
+					usesKind = true
+				}
+			}
+			if !usesKind || !isString(call.Type()) || !valueWritten(fn, call) {
+				continue
+			}
+			fd := p.FuncDecl(callee)
+			if fd == nil {
+				continue
+			}
+			classText := map[string]string{}
+			ast.Inspect(fd.Body, func(n ast.Node) bool {
+				sw, isSw := n.(*ast.SwitchStmt)
+				if !isSw {
+					return true
+				}
+				for _, st := range sw.Body.List {
+					cc := st.(*ast.CaseClause)
+					if cc.List == nil {
+						continue
+					}
+					lit := firstStringLit(cc)
+					for _, e := range cc.List {
+						name := types.ExprString(e)
+						name = strings.TrimPrefix(name, "reflect.")
+						classText[name] = lit
+					}
+				}
+				return true
+			})
+			rep := func(names ...string) string {
+				for _, n := range names {
+					if t, ok := classText[n]; ok {
+						return t
+					}
+				}
+				return "\x00missing"
+			}
+			texts := map[string]string{"int": rep("Int64", "Int"), "uint": rep("Uint64", "Uint"), "float": rep("Float64", "Float32"), "string": rep("String"), "bool": rep("Bool")}
+			seen := map[string]string{}
+			good := true
+			for cls, t := range texts {
+				if t == "\x00missing" {
+					continue // falls to a default: judged by the distinctness of the others
+				}
+				if other, dup := seen[t]; dup {
+					good = false
+					why = fmt.Sprintf("the kind is rendered through %s, which gives %s and %s the same text %q: constants that differ only in kind (2 vs 2.0) get one snapshot and are merged", fnName(callee), other, cls, t)
+				}
+				seen[t] = cls
+			}
+			if good && len(seen) >= 3 {
+				ok = true
+			}
+		}
+	}
+	c.Check(ok, construct, p.Pos(fn.Pos()), "Value.Kind().String() (or a kind tag distinct per class) is written", why)
+}
+
+// valueWritten: string value v flows into an argument of a write/format call of fn.
+func valueWritten(fn *ssa.Function, v ssa.Value) bool {
+	for _, ci := range callsIn(fn) {
+		if ci.Value() == v {
+			continue
+		}
+		name := calleeName(ci)
+		if !(strings.Contains(name, "Write") || strings.Contains(name, "Sprint")) {
+			continue
+		}
+		for _, arg := range ci.Common().Args {
+			if arg == v || derivesFromValue(arg, v) || varargDerives(arg, func(x ssa.Value) bool { return x == v }) {
+				return true
+			}
+		}
+	}
+	return false
+}
